@@ -2560,6 +2560,11 @@ impl Server {
             }
         }
         
+        // NX and XX are mutually exclusive
+        if nx && xx {
+            return Ok(RespFrame::error("ERR syntax error"));
+        }
+        
         // Handle NX option (only set if key doesn't exist) - use atomic operation
         if nx {
             let result = match expiration {
